@@ -38,7 +38,8 @@ GEN_THEOREMS = ["OmplModel.Generated.SharedAccess.plain_members", "OmplModel.Gen
                 "OmplModel.Generated.SharedAccess.surface_counters_exact",
                 "OmplModel.Generated.SharedAccess.surface_adds_linearizable",
                 "OmplModel.Generated.SharedAccess.surface_add_clear_linearizable",
-                "OmplModel.Generated.SharedAccess.surface_seeds_distinct"]
+                "OmplModel.Generated.SharedAccess.surface_seeds_distinct",
+                "OmplModel.Generated.SharedAccess.planner_fields_guarded"]
 TSAN_ENV = {"TSAN_OPTIONS": "halt_on_error=0:exitcode=0:history_size=4:second_deadlock_stack=1:report_thread_leaks=0"}
 PLANNERS = ["pRRT", "pSBL", "CForest", "PRM", "APS"]
 
@@ -54,6 +55,8 @@ MEMBER_OPS = {
     "PlannerSolutionSet::": ["solutions", "solmix", "solrace"],
     "AllocatedSpaces::": ["spaces"],
     "DefaultOutputHandler::": ["logging"],
+    "CForest::": ["cfrace"],
+    "CForestStateSampler::": ["cfrace"],
 }
 
 # TSan reports that are NOT reported, each with its reason.  (regex on "function@file" of the attributed OMPL site)
@@ -263,6 +266,14 @@ def judge_surface(op_line, out_line):
                 return ("add(x) concurrent with clearSolutionPaths(); %s adds: in %s of %s rounds the final set {%s} is neither "
                         "{101..} nor {101..}+{x} — cleared solutions resurrected / new ones dropped; no sequential order gives that"
                         % (a[1], d["bad"], d["rounds"], d["first_bad"]))
+        elif op == "cfrace":
+            if int(d["serialised"]) + int(d["overtaken"]) != int(d["rounds"]):
+                return "the two reports never met (%s+%s of %s rounds): scenario did not run" % (d["serialised"], d["overtaken"], d["rounds"])
+            if d["bad"] != "0":
+                return ("CForest::newSolutionFound, schedule `A enters the cost comparison of its report; B reports completely; A "
+                        "finishes`: in %s of %s rounds the outcome is not that of any sequential order of the two reports (best cost "
+                        "must be min(A,B) and equal the best solution's cost; paths shared = strict improvements in A;B or B;A) — %s"
+                        % (d["bad"], d["rounds"], d["first_bad"]))
         elif op == "logging":
             if d["received"] != d["sent"]:
                 return "%s messages sent, handlers received %s" % (d["sent"], d["received"])
@@ -562,6 +573,7 @@ def surface_ops(rng, tier, tsan):
         ops += ["solutions %d %d %d" % (T(2, 8), rng.range(1, 3), 40)]
         ops += ["solmix %d %d %d %d %d" % (T(2, 6), rng.range(1, 2), rng.range(1, 2), 60, rng.below(1000))]
         ops += ["solrace %d 2" % rng.range(2, 8)]
+        ops += ["cfrace %d %d" % (2 * rng.range(1, 3), 300)]
         ops += ["logging %d %d" % (T(2, 8), 200)]
         ops += ["terminate %d 0" % T(2, 8), "terminate %d 1" % T(2, 6), "terminate %d 2" % T(2, 6)]
     else:
@@ -578,6 +590,7 @@ def surface_ops(rng, tier, tsan):
             ops += ["solutions %d %d %d" % (T(2, 12), rng.range(1, 4), 150)]
             ops += ["solmix %d %d %d %d %d" % (T(2, 10), rng.range(1, 3), rng.range(1, 3), 300, rng.below(1000))]
             ops += ["solrace %d %d" % (rng.range(1, 12), 3)]
+            ops += ["cfrace %d %d" % (2 * rng.range(1, 4), rng.choice([200, 2000]))]
             ops += ["logging %d %d" % (T(), 1500)]
             ops += ["terminate %d 0" % T(), "terminate %d 1" % T(2, 8), "terminate %d 2" % T(2, 8)]
     return ops
@@ -696,17 +709,23 @@ def lean_part(ck):
                 ck.failed_obligations.append(("audit-grep", "Generated/SharedAccess.lean: forbidden token"))
         else:
             plain = [m["name"] for m in table if m["kind"] == "plain"]
-            why = "decide: the proposition is false; plain members: %s" % ", ".join(plain) if "is false" in out else out[-600:]
-            for n in GEN_THEOREMS[1:]:
-                ck.failed_obligations.append((n, why))
-            # plain_members (the extraction result stated in Lean) still has to check: every error must sit on the
-            # line of `theorem surface_no_plain`
+            unguarded = [f["name"] for f in getattr(shared_access.regenerate, "fields", []) if f["unguarded"]]
             gl = open(shared_access.OUT).read().splitlines()
-            want = next((i + 1 for i, l in enumerate(gl) if l.startswith("theorem surface_no_plain")), -1)
+            line_of = {name: next((i + 1 for i, l in enumerate(gl) if l.startswith("theorem " + name)), -1)
+                       for name in ("surface_no_plain", "planner_fields_guarded")}
             errs = [int(x) for x in re.findall(r"error: \S*SharedAccess\.lean:(\d+):\d+", out)]
-            if not errs or any(e != want for e in errs):
+            if line_of["surface_no_plain"] in errs:
+                why = "decide: the proposition is false; plain members: %s" % ", ".join(plain)
+                for n in GEN_THEOREMS[1:-1]:
+                    ck.failed_obligations.append((n, why))
+            if line_of["planner_fields_guarded"] in errs:
+                ck.failed_obligations.append((GEN_THEOREMS[-1], "decide: the proposition is false; worker-thread accesses without "
+                                              "the field's lock (or split over two lock scopes): %s" % ", ".join(unguarded)))
+            # plain_members (the extraction result stated in Lean) still has to check: every error must sit on the
+            # line of one of the two obligations
+            if not errs or any(e not in line_of.values() for e in errs):
                 ck.failed_obligations.append((GEN_THEOREMS[0], out[-400:]))
-        ck.log("lake build %s: %s" % (GEN_TARGET, "ok" if gen_ok else "FAILED (surface_no_plain)"))
+        ck.log("lake build %s: %s" % (GEN_TARGET, "ok" if gen_ok else "FAILED (surface_no_plain / planner_fields_guarded)"))
         return table, gen_ok
     finally:
         fcntl.flock(gen_lock, fcntl.LOCK_UN)
@@ -735,10 +754,17 @@ def run(ck):
     n_obl = len(ck.obligations)
     if ck.tier == "thorough" and ck.lean_ok:
         ck.leanchecker(["OmplModel.Props.C19"])
-    members = table or []
+    members = list(table or [])
+    fields = getattr(shared_access.regenerate, "fields", []) if table is not None else []
+    for f in fields:
+        ck.count("planner-field:" + ("unguarded" if f["unguarded"] else "guarded"))
+        members.append({"name": f["name"], "member": f["member"], "cls": f["cls"], "file": f["file"],
+                        "decl_type": "guarded by " + f["mutex"], "kind": "plain" if f["unguarded"] else "mutexGuarded",
+                        "sites": f["worker_sites"], "unguarded": f["unguarded"], "planner_field": True})
     plain_members = [m for m in members if m["kind"] == "plain"]
     for m in members:
-        ck.count("member-kind:" + m["kind"])
+        if not m.get("planner_field"):
+            ck.count("member-kind:" + m["kind"])
 
     hplain = build_plain(ck)
     htsan = build_tsan(ck)
@@ -782,7 +808,7 @@ def run(ck):
         flavour = "tsan" if res["tsan"] else "plain"
         ck.traces_validated += 1
         ck.count("runs:%s:%s" % (flavour, op if op != "planner" else "planner:" + op_line.split()[1]))
-        threads = int(op_line.split()[2]) if op == "planner" else int(op_line.split()[1])
+        threads = int(op_line.split()[2]) if op == "planner" else (2 if op in ("cfrace", "solrace") else int(op_line.split()[1]))
         ck.count("threads:%d" % threads)
         if op == "planner":
             what, info = judge_path(op_line, res["line"])
@@ -830,7 +856,9 @@ def run(ck):
         name = m["name"]
         ev_func = [(res, what) for res, what in functional if name in member_for_op(res["op"].split()[0], plain_members)]
         ev_race = races.get(name)
-        record = {"engine": "conc", "kind": "plain-shared-member", "member": name}
+        record = {"engine": "conc", "kind": "unguarded-planner-field" if m.get("planner_field") else "plain-shared-member",
+                  "member": name}
+        obligation_name = "planner_fields_guarded" if m.get("planner_field") else "surface_no_plain"
         sites = ", ".join(m["unguarded"][:4]) + (" ..." if len(m["unguarded"]) > 4 else "")
         if ev_func or ev_race:
             res, what = ev_func[0] if ev_func else (ev_race["res"], "ThreadSanitizer: " + ev_race["summary"])
@@ -839,14 +867,16 @@ def run(ck):
                 observed["tsan"] = ev_race["summary"]
                 observed["tsan_reports"] = ev_race["count"]
             ck.report(record, script=res["script"], engine="conc",
-                      expected="surface_no_plain: %s (%s) must be std::atomic or guarded at every access site; unguarded: %s"
-                               % (name, m["decl_type"], sites),
-                      observed=observed, obligation="OmplModel.Generated.SharedAccess.surface_no_plain")
-            ck.log("plain shared member %s: %s" % (name, what[:200]))
+                      expected="%s: %s (%s) must be %s; unguarded: %s"
+                               % (obligation_name, name, m["decl_type"],
+                                  "accessed from worker threads only while holding its lock, in one lock scope per function"
+                                  if m.get("planner_field") else "std::atomic or guarded at every access site", sites),
+                      observed=observed, obligation="OmplModel.Generated.SharedAccess." + obligation_name)
+            ck.log("%s %s: %s" % ("unguarded planner field" if m.get("planner_field") else "plain shared member", name, what[:200]))
         else:
             ck.report(record, found_input=False, engine="conc",
-                      obligation="surface_no_plain: %s is declared `%s` and accessed outside any lock scope at %s; no lost update "
-                                 "or race report was forced in this run" % (name, m["decl_type"], sites))
+                      obligation="%s: %s is declared `%s` and accessed outside any lock scope at %s; no lost update "
+                                 "or race report was forced in this run" % (obligation_name, name, m["decl_type"], sites))
             ck.log("plain shared member %s: extraction only, nothing observed" % name)
         reported_members.add(name)
     for res, what in functional:
@@ -870,7 +900,10 @@ def run(ck):
                   observed={"summary": e["summary"], "reports": e["count"], "site": e["site"], "member": e["member"],
                             "stderr_tail": e["res"]["err"][-3000:], "build": "tsan"}, engine="conc")
         ck.log("TSan %s: %s (%d report(s))" % (e["kind"], key, e["count"]))
-    ck.extra_cov["surface_members"] = [{k: m[k] for k in ("name", "decl_type", "kind", "sites", "unguarded")} for m in members]
+    ck.extra_cov["surface_members"] = [{k: m[k] for k in ("name", "decl_type", "kind", "sites", "unguarded")} for m in members
+                                       if not m.get("planner_field")]
+    ck.extra_cov["planner_fields"] = [{k: f[k] for k in ("name", "mutex", "workers", "worker_sites", "unguarded", "other_sites")}
+                                      for f in fields]
     ck.extra_cov["tsan_suppressed_sites"] = suppressed
     ck.extra_cov["level_note"] = ("proof: interleaving model + extracted access kinds; exploration: every TSan / stress / planner "
                                   "observation (sampled schedules)")
